@@ -30,8 +30,8 @@ Definition wf_x (x : xin) : bool :=
   pragma_clean hin &&
   (xi_framing x <=? 2) && (xi_mode x <=? 2) &&
   ((xi_framing x =? 2) || opt_vals_eqb (raw_get k_cl hin) (if xi_framing x =? 1 then Some [itoa (xi_blen x)] else None)) &&
-  (is_empty (t_scheme t) || negb (xi_mode x =? 2)) &&
-  (negb (is_empty (t_scheme t)) || is_empty (h_get k_xfp hin) || str_eqb (h_get k_xfp hin) (sent_scheme x)) &&
+  (* outside an intercepted session an origin-form target takes its scheme from X-Forwarded-Proto (C07's business) *)
+  ((xi_mode x =? 2) || negb (is_empty (t_scheme t)) || is_empty (h_get k_xfp hin) || str_eqb (h_get k_xfp hin) (sent_scheme x)) &&
   (Nat.leb (length (raw_values k_ua hin)) 1) &&
   match raw_get k_ae hin with Some (v :: _) => negb (is_empty v) | Some [] => false | None => true end &&
   (* no trailers (they are forwarded and re-announced: tested end to end, not part of this theorem) *)
@@ -62,7 +62,7 @@ Lemma read_request_shape x : trailer_decl (xi_framing x) (fields_to_hmap (xi_fie
     q_hdr r = l1_hdr x /\ q_method r = xi_method x /\ q_host r = sent_host x /\ q_scheme r = t_scheme (parse_target (xi_target x)) /\
     q_maj r = xi_maj x /\ q_min r = xi_min x /\ q_tls r = (xi_mode x =? 2) /\ q_remote r = xi_client_ip x ++ b ":0" /\
     q_close r = wants_close (xi_maj x) (xi_min x) (fields_to_hmap (xi_fields x)) /\
-    q_urlstr r = q_scheme (fix_request_scheme proxy_allow_http
+    q_urlstr r = q_scheme (prep
                    (mkq (xi_method x) (t_scheme (parse_target (xi_target x))) (sent_host x) [] (xi_client_ip x ++ b ":0")
                         (xi_mode x =? 2) (xi_maj x) (xi_min x) (wants_close (xi_maj x) (xi_min x) (fields_to_hmap (xi_fields x))) (l1_hdr x)))
                  ++ b "://" ++ sent_host x ++ t_path (parse_target (xi_target x)) ++ query_suffix (parse_target (xi_target x)).
@@ -231,26 +231,32 @@ Section E2E.
   Hypothesis Hallow : proxy_allow_http = true.
   Hypothesis Hhandler : In (b "handleMartianErrorStatus") error_handlers.
 
-  (* the scheme fixRequestScheme settles on is the one the client used to reach the proxy's next hop *)
+  (* the scheme the modifiers see is the one the client used to reach the proxy's next hop: https inside an
+     intercepted session, otherwise what fixRequestScheme settles on *)
   Lemma fixed_scheme x r :
     q_scheme r = t_scheme (parse_target (xi_target x)) -> q_tls r = (xi_mode x =? 2) -> q_hdr r = l1_hdr x ->
-    (is_empty (t_scheme (parse_target (xi_target x))) || negb (xi_mode x =? 2)) = true ->
-    (negb (is_empty (t_scheme (parse_target (xi_target x)))) || is_empty (h_get k_xfp (hin_of x))
+    ((xi_mode x =? 2) || negb (is_empty (t_scheme (parse_target (xi_target x)))) || is_empty (h_get k_xfp (hin_of x))
        || str_eqb (h_get k_xfp (hin_of x)) (sent_scheme x)) = true ->
-    q_scheme (fix_request_scheme proxy_allow_http r) = sent_scheme x.
+    q_scheme (prep r) = sent_scheme x.
   Proof.
-    intros Es Et Eh W1 W2. unfold fix_request_scheme. rewrite Hallow. cbn [negb]. rewrite andb_false_r.
+    intros Es Et Eh W2. unfold prep, mitm_https.
+    assert (TL : q_tls (fix_request_scheme proxy_allow_http r) = q_tls r).
+    { destruct r as [m sc ho us re tl mj mn cl hd]. unfold fix_request_scheme.
+      cbn [q_scheme q_tls q_hdr set_scheme].
+      repeat match goal with |- context [if ?c then _ else _] => destruct c end; reflexivity. }
+    rewrite TL, Et. unfold sent_scheme in *.
+    destruct (xi_mode x =? 2) eqn:M2; [reflexivity|]. cbn [orb] in W2.
+    unfold fix_request_scheme. rewrite Hallow. cbn [negb]. rewrite andb_false_r.
     assert (XP : h_get k_xfp (q_hdr r) = h_get k_xfp (hin_of x)).
     { rewrite Eh. rewrite !h_get_raw by reflexivity. rewrite l1_get_other by discriminate. reflexivity. }
     rewrite XP, Et.
     destruct (parse_target_scheme (xi_target x)) as [E|E].
     - rewrite Es, E. rewrite E in W2. cbn [negb orb] in W2. cbv zeta.
       destruct (is_empty (h_get k_xfp (hin_of x))) eqn:Ex; cbn [negb].
-      + unfold sent_scheme. destruct (xi_mode x =? 2); reflexivity.
+      + reflexivity.
       + cbn [orb] in W2. apply str_eqb_eq in W2. cbn [q_scheme set_scheme]. exact W2.
     - assert (NE : is_empty (q_scheme r) = false) by (rewrite Es, E; reflexivity).
-      rewrite NE. rewrite Es, E. rewrite E in W1. cbn [is_empty b orb] in W1.
-      apply negb_true_iff in W1. unfold sent_scheme. rewrite W1. reflexivity.
+      rewrite NE. rewrite Es, E. reflexivity.
   Qed.
 
   Lemma fix_scheme_others a r : q_method (fix_request_scheme a r) = q_method r /\ q_host (fix_request_scheme a r) = q_host r /\
@@ -260,6 +266,14 @@ Section E2E.
   Proof.
     unfold fix_request_scheme.
     repeat match goal with |- context [if ?c then _ else _] => destruct c end; repeat split; reflexivity.
+  Qed.
+
+  Lemma prep_others r : q_method (prep r) = q_method r /\ q_host (prep r) = q_host r /\
+    q_maj (prep r) = q_maj r /\ q_min (prep r) = q_min r /\
+    q_close (prep r) = q_close r /\ q_remote (prep r) = q_remote r /\ q_urlstr (prep r) = q_urlstr r.
+  Proof.
+    unfold prep, mitm_https. destruct (fix_scheme_others proxy_allow_http r) as [A [B [C [D [E [F G]]]]]].
+    destruct (q_tls _); cbn [q_method q_host q_maj q_min q_close q_remote q_urlstr set_scheme]; repeat split; assumption.
   Qed.
 
   Lemma opt_str_eqb_eq a c : opt_str_eqb a c = true -> a = c.
@@ -277,7 +291,7 @@ Section E2E.
     assert (Tr1 : trailer_decl (xi_framing x) (fields_to_hmap (xi_fields x)) = []) by (destruct (trailer_decl _ _); [reflexivity | discriminate]).
     assert (Tr2 : trailer_decl (xi_framing x) (hin_of x) = []) by (destruct (trailer_decl _ (hin_of x)); [reflexivity | discriminate]).
     apply andb_true_iff in W as [W Wae]. apply andb_true_iff in W as [W Wua]. apply andb_true_iff in W as [W Wxfp].
-    apply andb_true_iff in W as [W Wmode2]. apply andb_true_iff in W as [W Wclf]. apply andb_true_iff in W as [W Wm].
+    apply andb_true_iff in W as [W Wclf]. apply andb_true_iff in W as [W Wm].
     apply andb_true_iff in W as [W Wf]. apply andb_true_iff in W as [W Wprag]. apply andb_true_iff in W as [W Wesc].
     apply andb_true_iff in W as [W Wconn]. apply andb_true_iff in W as [W Wip2]. apply andb_true_iff in W as [W Wip].
     apply andb_true_iff in W as [W Wmin]. apply andb_true_iff in W as [Wtag Wmaj].
@@ -289,22 +303,21 @@ Section E2E.
     change (handle_request_cfg no_cfg (xi_tag x) r0) with (handle_request (xi_tag x) r0) in H.
     destruct (handle_request (xi_tag x) r0) as [st|r'] eqn:EH; [discriminate|].
     rewrite (handle_request_explicit _ _ Horder) in EH. unfold handle_explicit, handle_explicit_cfg in EH. cbv zeta in EH.
-    change (modify_request_cfg no_cfg (xi_tag x) (fix_request_scheme proxy_allow_http r0))
-      with (modify_request (xi_tag x) (fix_request_scheme proxy_allow_http r0)) in EH.
-    set (rf := fix_request_scheme proxy_allow_http r0) in *.
+    change (modify_request_cfg no_cfg (xi_tag x) (prep r0)) with (modify_request (xi_tag x) (prep r0)) in EH.
+    set (rf := prep r0) in *.
     destruct (modify_request (xi_tag x) rf) as [st|r1] eqn:EM; [discriminate|]. injection EH as EH.
     unfold transport_out in H. rewrite Wesc in H. injection H as <-. cbn [xo_method xo_target xo_framing xo_hdr].
     assert (TH : transport_hdr x r' = transport_hdr0 x r').
     { unfold transport_hdr. fold (hin_of x). rewrite Tr2. reflexivity. }
     rewrite TH.
     (* facts about rf *)
-    assert (Hrf : q_hdr rf = l1_hdr x) by (unfold rf; rewrite fix_scheme_hdr; exact Eh).
-    destruct (fix_scheme_others proxy_allow_http r0) as [Fm [Fh [Fmaj [Fmin [Fcl [Frem Furl]]]]]]. fold rf in Fm, Fh, Fmaj, Fmin, Fcl, Frem, Furl.
-    assert (Fs : q_scheme rf = sent_scheme x) by (apply (fixed_scheme x r0 Es Etls Eh Wmode2 Wxfp)).
+    assert (Hrf : q_hdr rf = l1_hdr x) by (unfold rf; rewrite prep_hdr; exact Eh).
+    destruct (prep_others r0) as [Fm [Fh [Fmaj [Fmin [Fcl [Frem Furl]]]]]]. fold rf in Fm, Fh, Fmaj, Fmin, Fcl, Frem, Furl.
+    assert (Fs : q_scheme rf = sent_scheme x) by (apply (fixed_scheme x r0 Es Etls Eh Wxfp)).
     assert (Eurl' : q_urlstr rf = sent_scheme x ++ b "://" ++ sent_host x ++ sent_raw_path_query x).
     { rewrite Furl, Eurl. unfold sent_raw_path_query. f_equal.
-      match goal with |- q_scheme (fix_request_scheme _ ?m) = _ =>
-        apply (fixed_scheme x m); [reflexivity | reflexivity | reflexivity | exact Wmode2 | exact Wxfp] end. }
+      match goal with |- q_scheme (prep ?m) = _ =>
+        apply (fixed_scheme x m); [reflexivity | reflexivity | reflexivity | exact Wxfp] end. }
     (* facts about r1 *)
     destruct (identity_fields Hflat Hxff Hfill Hvia _ rf r1 EM) as [Im [Iho [Iurl [Isch [Imaj [Imin Icl]]]]]].
     assert (NC : str_eqb (q_method rf) m_connect = false) by (rewrite Fm, Em; exact Wconn).
@@ -492,7 +505,7 @@ Section E2E.
     apply andb_true_iff in W as [W Wtr2]. apply andb_true_iff in W as [W Wtr1].
     assert (Tr1 : trailer_decl (xi_framing x) (fields_to_hmap (xi_fields x)) = []) by (destruct (trailer_decl _ _); [reflexivity | discriminate]).
     apply andb_true_iff in W as [W Wae]. apply andb_true_iff in W as [W Wua]. apply andb_true_iff in W as [W Wxfp].
-    apply andb_true_iff in W as [W Wmode2]. apply andb_true_iff in W as [W Wclf]. apply andb_true_iff in W as [W Wm].
+    apply andb_true_iff in W as [W Wclf]. apply andb_true_iff in W as [W Wm].
     apply andb_true_iff in W as [W Wf]. apply andb_true_iff in W as [W Wprag]. apply andb_true_iff in W as [W Wesc].
     apply andb_true_iff in W as [W Wconn]. apply andb_true_iff in W as [W Wip2]. apply andb_true_iff in W as [W Wip].
     apply andb_true_iff in W as [W Wmin]. apply andb_true_iff in W as [Wtag Wmaj].
@@ -502,16 +515,15 @@ Section E2E.
     destruct (handle_request (xi_tag x) r0) as [s|r'] eqn:EH.
     - injection H as <-.
       rewrite (handle_request_explicit _ _ Horder) in EH. unfold handle_explicit, handle_explicit_cfg in EH. cbv zeta in EH.
-      change (modify_request_cfg no_cfg (xi_tag x) (fix_request_scheme proxy_allow_http r0))
-        with (modify_request (xi_tag x) (fix_request_scheme proxy_allow_http r0)) in EH.
-      destruct (modify_request (xi_tag x) (fix_request_scheme proxy_allow_http r0)) as [s'|r1] eqn:EM; [|discriminate].
+      change (modify_request_cfg no_cfg (xi_tag x) (prep r0)) with (modify_request (xi_tag x) (prep r0)) in EH.
+      destruct (modify_request (xi_tag x) (prep r0)) as [s'|r1] eqn:EM; [|discriminate].
       injection EH as <-. rewrite (modify_request_is_pipeline Hflat Hxff Hfill Hvia) in EM.
       assert (Hst' : status_of_error_status via_loop_status = 400).
       { rewrite Hst. unfold status_of_error_status. apply first_nonzero_status; [discriminate|].
         (* the handler list is part of the status obligation: taken from the caller *) exact Hhandler. }
       destruct (pipeline_refused Hhop Hst Hcl Hsep Hst' _ _ _ Wtag EM) as [[A B]|[A B]].
-      + rewrite fix_scheme_hdr, Eh in A. rewrite (l1_values_after x via_key) in A by discriminate. split; assumption.
-      + rewrite fix_scheme_hdr, Eh in A. congruence.
+      + rewrite prep_hdr, Eh in A. rewrite (l1_values_after x via_key) in A by discriminate. split; assumption.
+      + rewrite prep_hdr, Eh in A. congruence.
     - destruct (transport_out x _ r'); discriminate.
   Qed.
 End E2E.
